@@ -254,6 +254,12 @@ def build_jobs(tier, rep):
     docs += longdocs
     fx = fixture_docs()
     docs += fx
+    # Unicode twins of the character strings and line-shape documents (digit / space / line-break / letter /
+    # punctuation look-alikes that general-purpose string predicates classify like their ASCII counterpart)
+    tw = gen.twins([d for d in l0 if len(d) <= 3], C.SEED, per_doc=2) \
+        + gen.twins(gen.sample(l1, 40000 if q else 400000, C.SEED + 6, keep_short=3000), C.SEED + 1, per_doc=2) \
+        + gen.twins(gen.sample(l2, 15000 if q else 150000, C.SEED + 7), C.SEED + 2, per_doc=1)
+    docs += tw
     # nesting families
     nest, sizes = gen.alphabet("Nest"), gen.alphabet("NestSizes")
     fam = [u * n + m + c * n for (u, m, c) in nest for n in sizes]
@@ -282,7 +288,7 @@ def build_jobs(tier, rep):
     for b in lb:
         jobs.append((base[0], "cli", b, None, True))
     rep.cov["bounds"] = {"L0": len(l0), "L1": len(l1), "L2": len(l2), "LB": len(lb), "long_docs": len(longdocs),
-                         "fixtures": len(fx), "nesting_family_docs": len(fam), "configs_enumerated": len(cfgs),
+                         "fixtures": len(fx), "unicode_twin_docs": len(tw), "nesting_family_docs": len(fam), "configs_enumerated": len(cfgs),
                          "calls": len(jobs)}
     return jobs, fam
 
